@@ -5,6 +5,7 @@ pub mod c03;
 pub mod c04;
 pub mod c06;
 pub mod c07;
+pub mod c09;
 pub mod c10;
 pub mod c11;
 pub mod c11w;
@@ -58,5 +59,25 @@ pub fn lab3() {
     println!("{}", r.desc);
     for l in r.world.trace.render(0, 80) {
         println!("  {}", crate::util::prefix(&l, 260));
+    }
+}
+
+pub fn lab4() {
+    for i in 0..3000u64 {
+        let seed = crate::util::mix(1, 0xC09_0000 + i);
+        if seed % 5 != 0 {
+            continue;
+        }
+        let made = c09::rename_scenario(seed);
+        if made.desc.contains(&std::env::var("LAB_DESC").unwrap_or_default()) {
+            println!("{}", made.desc);
+            for l in made.world.trace.render(0, 400) {
+                if l.contains(" tx ") || l.contains(" api ") || l.contains(" ev#") || l.contains("Q ?box") {
+                    println!("  {}", crate::util::prefix(&l, 330));
+                }
+            }
+            println!("{:?}", made.world.hosts[0].last_snapshot);
+            break;
+        }
     }
 }
